@@ -179,7 +179,7 @@ PROPS["C01"] = {
              "ListDevices, GetDevice for all 18 names of the pools (path, priority, definition, Spec), ListVendors, ListClasses, "
              "GetVendorSpecs, and no GetErrors key for a valid conflict-free file. One case = one step. Non-trivial iff >= 2 slots and some "
              "name defined by >= 2 valid files; distinct = distinct layout states."),
-    "assumptions": ["symlinked directories/files and a configured 'directory' that is a regular file named *.json are not generated (stated don't-cares)",
+    "assumptions": ["valid Spec files may be symbolic links to regular files (inside or outside the directory; added after seeded change C01-3); symlinked directories and a configured 'directory' that is a regular file named *.json are not generated (stated don't-cares)",
                     "with a directory listed twice, whether GetVendorSpecs lists its Specs once or twice is not fixed by the statement (compared as a set)"],
     "manifest": {
         "text": ("Model-based stateful testing of the cache against an independent resolution model over generated directory populations "
@@ -299,7 +299,9 @@ PROPS["C13"] = {
              "its definition and nothing else is listed; (2) GetErrors has an entry for every failing Spec-named file and none for a "
              "good file; (3) Refresh returns an error if a Spec file is in error and nil if all directories are readable or absent and "
              "all files valid (other directory faults leave it open); (4) GetSpecErrors agrees with GetErrors and no stale entry "
-             "survives a repair. One case = one step. Non-trivial iff a fault sits at a lower index than some good directory, or the "
+             "survives a repair. auto unit: the same state machine on an auto-refresh cache - Refresh() does not rescan there, so the four "
+             "clauses must hold once the watcher has caught up (polled for at most 10 s after each step); a directory may also leave by "
+             "being renamed away (both units). One case = one step. Non-trivial iff a fault sits at a lower index than some good directory, or the "
              "step is a repair; distinct = distinct (layout state, fault set)."),
     "assumptions": ["files inside a directory that cannot be listed or stat-ed, and inside a symlinked directory, are not required to be reported (the library cannot see them)",
                     "permission faults need root with setuid to 65534, or a non-root caller; probed at start, skipped and labelled otherwise"],
@@ -320,6 +322,7 @@ PROPS["C13"] = {
                          "iofault:openat": 100, "iofault:read": 100, "iofault:getdents64": 100, "iofault-on:file": 200, "iofault-on:directory": 200}},
     "units": [
         {"name": "rapid", "mode": "rapid", "run": "TestC13Rapid", "checks": {"quick": 6400, "thorough": 128000}},
+        {"name": "auto", "mode": "rapid", "run": "TestC13Auto", "shards": 8, "checks": {"quick": 800, "thorough": 16000}},
         {"name": "perm", "mode": "rapid", "run": "TestC13Perm", "checks": {"quick": 1600, "thorough": 32000}},
         {"name": "readfaults", "mode": "rapid", "run": "TestC13ReadFaults", "checks": {"quick": 160, "thorough": 3200}},
     ],
